@@ -506,18 +506,7 @@ fn t2_single_skip() {
     run2([B_SINGLE, B_SKIP | B_LEN], [1, 2], 2, 2, false);
 }
 
-// @verif family=TBMC hook=1 ignorefn=TProbeA thorough=C12,C01,C02,C09 timeout=3600 mem=48 optcov=both
-// @bounds kind=ConIterOfIter<usize,TProbe*> len<=2; thread 0: next_id_and_value(); thread 1 (last, continues on its own after the trace): enumerate_for_each(1, ..) until the end; <=7 guessed events per thread; all interleavings of the pull with the loop
-#[kani::proof]
-#[kani::unwind(12)]
-fn t2_single_foreach1() {
-    run2([B_SINGLE, B_FE1], [1, 1], 2, 2, false);
-}
-
-// @verif family=TBMC hook=1 ignorefn=TProbeA thorough=C12,C01,C02,C09 timeout=3600 mem=40 optcov=both
-// @bounds kind=ConIterOfIter<usize,TProbe*> len<=2; thread 0: next_id_and_value(); thread 1 (last): enumerate_for_each(2, ..) (buffered chunks of 2) until the end; <=7 guessed events per thread; all interleavings
-#[kani::proof]
-#[kani::unwind(12)]
-fn t2_single_foreach2() {
-    run2([B_SINGLE, B_FE2], [1, 1], 2, 2, false);
-}
+// NOTE: TBMC harnesses with enumerate_for_each on the wrapper (one thread looping until the end while another
+// pulls) were tried with chunk sizes 1 and 2: CBMC needed > 24 GB after 25 min (and > 16 GB for chunk size 2 even
+// sequentially). They are not registered; the for_each loop on the wrapper under interleavings is therefore
+// covered only through its constituent pulls (t2_* harnesses) and sequentially (iter_loops).
